@@ -5,19 +5,24 @@
                                                                handle_write → initiate_send                    (the asyncore loop thread)
   Two kinds of threads touch `out_buffer`: whoever calls sendData (serialised among themselves by the layer locks, C11) and
   the asyncore loop thread.  A flush is three operations — read the buffer, hand it to the socket, cut what was sent —
-  and so is an append-and-flush; `Cfg.locked` says whether they run under one lock (regenerated from the source,
-  Gen/SendBufCfg.lean).  Bytes are abstract naturals; the socket accepts everything it is given (partial sends only
-  shorten the cut and are covered by the same argument).
+  and so is an append-and-flush; the append itself, `self.out_buffer = self.out_buffer + data`, is a load and a store
+  between which another thread may run.  `Cfg.locked` says whether a flush runs under the lock, `Cfg.appendLocked`
+  whether the append of sendData is inside the same critical section as its flush (both regenerated from the source by
+  observing, on a real dispatcher, whether the lock is held at every access to `out_buffer`; Gen/SendBufCfg.lean).  Bytes are abstract naturals; how many bytes the socket accepts at a send is chosen by the
+  schedule (a partial send leaves the rest in the buffer — the situation in which an append outside the lock loses or
+  repeats bytes).
 -/
 namespace Yow.SendBuf
 
 structure Cfg where
   locked : Bool
+  appendLocked : Bool
 deriving Repr, DecidableEq
 
 inductive Op
   | acq | rel
-  | append (data : List Nat)
+  | load                    -- tmp := out_buffer                 (first half of `out_buffer = out_buffer + data`)
+  | store (data : List Nat) -- out_buffer := tmp + data          (second half)
   | read                    -- snapshot := out_buffer[:65536]
   | send                    -- socket.send(snapshot)
   | cut                     -- out_buffer := out_buffer[num_sent:]
@@ -26,7 +31,9 @@ deriving Repr, DecidableEq
 def guarded (cfg : Cfg) (ops : List Op) : List Op := if cfg.locked then [.acq] ++ ops ++ [.rel] else ops
 
 /-- sendData(data) -/
-def sendData (cfg : Cfg) (data : List Nat) : List Op := guarded cfg [.append data, .read, .send, .cut]
+def sendData (cfg : Cfg) (data : List Nat) : List Op :=
+  if cfg.appendLocked then guarded cfg [.load, .store data, .read, .send, .cut]
+  else [.load, .store data] ++ guarded cfg [.read, .send, .cut]
 /-- handle_write() -/
 def handleWrite (cfg : Cfg) : List Op := guarded cfg [.read, .send, .cut]
 
@@ -34,6 +41,7 @@ structure Thread where
   ops : List Op
   snapshot : List Nat := []
   sent : Nat := 0
+  tmp : List Nat := []
 deriving Repr, DecidableEq
 
 structure St where
@@ -50,7 +58,8 @@ def init (cfg : Cfg) (frames : List (List Nat)) (flushes : Nat) : St :=
 
 def setThread (s : St) (i : Nat) (t : Thread) : St := { s with threads := s.threads.set i t }
 
-def step (s : St) (i : Nat) : St :=
+/-- thread `i` performs its next operation; `cap` = the number of bytes the socket accepts if that operation is a send -/
+def step (s : St) (i : Nat) (cap : Nat := 65536) : St :=
   match s.threads[i]? with
   | none => s
   | some t =>
@@ -61,14 +70,16 @@ def step (s : St) (i : Nat) : St :=
       match op with
       | .acq => if s.lock.isNone then { setThread s i t' with lock := some i } else s
       | .rel => { setThread s i t' with lock := none }
-      | .append d => { setThread s i t' with buf := s.buf ++ d, appended := s.appended ++ d }
+      | .load => setThread s i { t' with tmp := s.buf }
+      | .store d => { setThread s i t' with buf := t.tmp ++ d, appended := s.appended ++ d }
       | .read => setThread s i { t' with snapshot := s.buf }
-      | .send => { setThread s i { t' with sent := t.snapshot.length } with socket := s.socket ++ t.snapshot }
+      | .send => { setThread s i { t' with sent := min cap t.snapshot.length } with socket := s.socket ++ t.snapshot.take cap }
       | .cut => { setThread s i t' with buf := s.buf.drop t.sent }
 
-def run : St → List Nat → St
+/-- a schedule: which thread moves, and how much the socket would accept -/
+def run : St → List (Nat × Nat) → St
   | s, [] => s
-  | s, i :: is => run (step s i) is
+  | s, (i, cap) :: is => run (step s i cap) is
 
 def finished (s : St) : Bool := s.threads.all (fun t => t.ops.isEmpty)
 
